@@ -64,6 +64,7 @@ func checkC08(c *Ctx) (string, error) {
 	c.Rule("R08.7", "map slot sizes recorded in the descriptor depend on the same indirect-storage threshold as the bucket type", 2)
 
 	checkAbiSizeTables(c, ap)
+	checkPtrBytesStruct(c, ap)
 	checkKindExhaustive(c, ap, sp)
 	checkDescriptorLayout(c, "R08.3", sp, rw.RT("abi"))
 	checkSizeofOffsetsof(c, sp, ap)
